@@ -32,12 +32,28 @@ def mk_dataset(rng, kind=None, maxn=40):
         info["X"] = {"Offset": float(rng.choice([0.0, 0.2, -0.3, 0.01, 0.1, 1.0, -1.5, 0.07]))}
     if rng.random() < 0.15:
         info.pop("ReciprocalFunction") if kind == "S(Q)" else None
+    # rows need not be in ascending Q: descending files, or detector banks concatenated with the high-Q bank first
+    r = rng.random()
+    if r < 0.08:
+        order = np.arange(n)[::-1]
+    elif r < 0.16:
+        k = int(rng.integers(1, n))
+        order = np.concatenate([np.arange(k, n), np.arange(0, k)])
+    elif r < 0.2:
+        order = rng.permutation(n)
+    else:
+        order = None
+    if order is not None:
+        for key in ("x", "y", "dy"):
+            if key in info:
+                info[key] = [info[key][int(j)] for j in order]
+        info["unsorted"] = True
     return info
 
 
 def to_info(d):
     """the dict handed to StoG.add_dataset (fresh arrays every time: add_dataset stores into the dict)"""
-    info = {k: copy.deepcopy(v) for k, v in d.items() if k not in ("x", "y", "dy")}
+    info = {k: copy.deepcopy(v) for k, v in d.items() if k not in ("x", "y", "dy", "unsorted")}
     data = [np.array(d["x"], dtype=float), np.array(d["y"], dtype=float)]
     if "dy" in d:
         data.append(np.array(d["dy"], dtype=float))
